@@ -179,6 +179,19 @@ func (t *wTr) cond(e ast.Expr) (string, error) {
 				}
 			}
 			if x.Op == token.EQL {
+				if pa, ta, ok1 := t.tokLineOf(x.X); ok1 {
+					if pb, tb, ok2 := t.tokLineOf(x.Y); ok2 {
+						a, err := t.path(pa)
+						if err != nil {
+							return "", err
+						}
+						b, err := t.path(pb)
+						if err != nil {
+							return "", err
+						}
+						return fmt.Sprintf("(.sameTok %s %q %s %q)", leanPath(a), ta, leanPath(b), tb), nil
+					}
+				}
 				a, wa, oka := t.lineOf(x.X)
 				b, wb, okb := t.lineOf(x.Y)
 				if oka && okb && wa == "Pos" && wb == "End" {
@@ -328,6 +341,16 @@ func (t *wTr) act(s ast.Stmt) (string, error) {
 						return "", err
 					}
 					return ".single " + leanPath(pp), nil
+				}
+			}
+		case "processControlStatements", "processGlobalValueSpecs", "processGlobalFunctionLit":
+			if len(args) == 2 {
+				if id, ok := args[1].(*ast.Ident); ok && id.Name == t.fset {
+					pp, err := t.path(args[0])
+					if err != nil {
+						return "", err
+					}
+					return map[string]string{"processControlStatements": ".ctl ", "processGlobalValueSpecs": ".globalSpecs ", "processGlobalFunctionLit": ".globalLits "}[name] + leanPath(pp), nil
 				}
 			}
 		case "processStatements", "analyzeAndModifyExpr":
@@ -902,6 +925,75 @@ func translateInspector(fd *ast.FuncDecl) (string, error) {
 	return "[" + strings.Join(arms, ",\n    ") + "]", nil
 }
 
+// addStmts: … for _, decl := range f.Decls { switch decl := decl.(type) { arms } } … return t.doInsert()
+// Only the loop over the declarations is translated (the arms of its type switch).
+func translateDecls(fd *ast.FuncDecl) (string, error) {
+	name := fd.Name.Name
+	t := &wTr{env: map[string]string{}, posOf: map[string]string{}, okOf: map[string]string{}}
+	if fd.Recv == nil || len(fd.Recv.List) != 1 || len(fd.Recv.List[0].Names) != 1 {
+		return "", fmt.Errorf("%s: receiver", name)
+	}
+	t.recv = fd.Recv.List[0].Names[0].Name
+	var loops []*ast.RangeStmt
+	for _, st := range fd.Body.List {
+		if rs, ok := st.(*ast.RangeStmt); ok {
+			loops = append(loops, rs)
+		}
+	}
+	if len(loops) != 1 {
+		return "", fmt.Errorf("%s: expected exactly one range loop at the top level, found %d", name, len(loops))
+	}
+	loop := loops[0]
+	sel, ok := loop.X.(*ast.SelectorExpr)
+	if !ok || sel.Sel.Name != "Decls" || loop.Value == nil || !isIdent(loop.Key, "_") {
+		return "", fmt.Errorf("%s: the loop does not range over the declarations of the file", name)
+	}
+	// the file set is the first result of the statement that parses the content
+	t.fset = ""
+	for _, st := range fd.Body.List {
+		if as, ok := st.(*ast.AssignStmt); ok && as.Tok == token.DEFINE && len(as.Lhs) == 3 {
+			if id, ok := as.Lhs[0].(*ast.Ident); ok {
+				t.fset = id.Name
+			}
+		}
+	}
+	if t.fset == "" {
+		return "", fmt.Errorf("%s: file set variable not found", name)
+	}
+	elem := loop.Value.(*ast.Ident).Name
+	if len(loop.Body.List) != 1 {
+		return "", fmt.Errorf("%s: loop body is not a single type switch", name)
+	}
+	ts, ok := loop.Body.List[0].(*ast.TypeSwitchStmt)
+	if !ok || ts.Init != nil {
+		return "", fmt.Errorf("%s: loop body is not a type switch", name)
+	}
+	as, ok := ts.Assign.(*ast.AssignStmt)
+	if !ok || len(as.Lhs) != 1 || len(as.Rhs) != 1 {
+		return "", fmt.Errorf("%s: type switch guard", name)
+	}
+	ta, ok := as.Rhs[0].(*ast.TypeAssertExpr)
+	if !ok || ta.Type != nil || !isIdent(ta.X, elem) {
+		return "", fmt.Errorf("%s: type switch is not on the loop variable", name)
+	}
+	// what follows the loop must be the text splice alone
+	last := fd.Body.List[len(fd.Body.List)-1]
+	if rs, ok := last.(*ast.ReturnStmt); !ok || len(rs.Results) != 1 {
+		return "", fmt.Errorf("%s: the function does not end with `return t.doInsert()`", name)
+	} else if n, _, ok := t.recvCall(rs.Results[0]); !ok || n != "doInsert" {
+		return "", fmt.Errorf("%s: the function does not end with `return t.doInsert()`", name)
+	}
+	if fd.Body.List[len(fd.Body.List)-2] != ast.Stmt(loop) {
+		return "", fmt.Errorf("%s: statements between the loop over the declarations and the text splice", name)
+	}
+	t.bind(elem, nil)
+	arms, err := t.arms(ts.Body, nil, as.Lhs[0].(*ast.Ident).Name)
+	if err != nil {
+		return "", fmt.Errorf("%s: %v", name, err)
+	}
+	return arms, nil
+}
+
 func runWalker(args []string) error {
 	repo := os.Getenv("VERIF_REPO")
 	if repo == "" {
@@ -943,12 +1035,26 @@ func runWalker(args []string) error {
 			}
 		}
 	}
+	declWalker := ""
+	for _, d := range f.Decls {
+		if fd, ok := d.(*ast.FuncDecl); ok && fd.Body != nil && fd.Recv != nil && fd.Name.Name == "addStmts" {
+			s, err := translateDecls(fd)
+			if err != nil {
+				terr = append(terr, err.Error())
+			} else {
+				declWalker = s
+			}
+		}
+	}
 	var b strings.Builder
 	b.WriteString("import GoatSpec.WalkIR\n/-! GENERATED by `vh walker` from /repo/pkg/tracking/increment.go (go/parser, purely syntactic) on every run — do not edit.\n    The statement and expression walkers as `WalkIR` values; an untranslatable construct leaves the\n    walker out (its theorems in Properties/Walker.lean then fail to elaborate). -/\nnamespace GoatSpec.Walker\nopen GoatSpec.WalkIR\n\n")
 	for _, w := range want {
 		if s, ok := got[w]; ok {
 			fmt.Fprintf(&b, "def %s : Walker := ⟨\n   %s⟩\n\n", w, s)
 		}
+	}
+	if declWalker != "" {
+		fmt.Fprintf(&b, "def addStmts : Walker := ⟨\n   %s⟩\n\n", declWalker)
 	}
 	if inspector != "" {
 		fmt.Fprintf(&b, "def processControlStatements : Inspector := ⟨\n   %s⟩\n\n", inspector)
